@@ -62,6 +62,11 @@ class Inner:
         self.raised = []
         self.returned = []
 
+    # how a scripted exception is raised: bare, `raise e from <an exception of another scripted class>`, or while an exception of
+    # another scripted class is being handled.  The statement decides on the class of the raised exception alone, so the
+    # prediction is the same in all three (found by C17-r12-1: a retry decision that walks __cause__/__context__)
+    chain = None
+    chained = 0
     clock = None        # when set: every invocation takes `takes` seconds of (virtual) time before it returns or raises
     takes = 0.0
 
@@ -76,6 +81,15 @@ class Inner:
             return r
         e = ALL_CLASSES[o]("scripted %s" % o)
         self.raised.append(e)
+        if Inner.chain and o in NAMES:
+            other = CLASSES[NAMES[(NAMES.index(o) + 1 + len(self.raised)) % len(NAMES)]]("an earlier, unrelated failure")
+            Inner.chained += 1
+            if Inner.chain == "cause":
+                raise e from other
+            try:
+                raise other
+            except Exception:
+                raise e
         raise e
 
     def get(self, *a, **k):
@@ -454,7 +468,11 @@ def shard(tier, seed, idx, n):
                     how = "tuple"
                 delay = (0, 0.25)[(work // n // 4) % 2]
                 method = methods[(work // n // 8) % len(methods)] if (work // n) % 3 == 0 else "get"
-                run_case(res, retrying, attempts, seq, rf, dn, how, delay, method)
+                Inner.chain = (None, "cause", "context", None)[(work // n // 2) % 4]
+                try:
+                    run_case(res, retrying, attempts, seq, rf, dn, how, delay, method)
+                finally:
+                    Inner.chain = None
                 nt = (attempts, seq, rf, dn) if any(o != "ok" for o in seq) else None
                 res.case(nt, {"attempts": attempts, "outcomes": seq, "retry_for": rf, "do_not_retry_for": dn, "spelling": how,
                               "retry_delay": delay, "method": method} if res.evaluations % 7919 == 0 else None)
@@ -481,6 +499,7 @@ def shard(tier, seed, idx, n):
         invalid_configs(res, retrying)
     else:
         res.count("invalid_configs_rejected", 0)
+    res.count("exceptions_raised_chained_to_another_class", Inner.chained)
     res.extra["exhaustive"] = True
     res.extra["exhaustive_part"] = "attempts 1..%d x all outcome sequences x all 81 disjoint subset pairs; all 175 overlapping pairs x 3 spellings rejected" % maxa
     return res
@@ -497,7 +516,12 @@ def replay(case):
         run_session(res, retrying, *[tuple(map(tuple, x)) if i == 1 else (tuple(x) if isinstance(x, list) else x)
                                      for i, x in enumerate(case[1:])])
     else:
-        run_case(res, retrying, *case)
+        for ch in (None, "cause", "context"):
+            Inner.chain = ch
+            try:
+                run_case(res, retrying, *case)
+            finally:
+                Inner.chain = None
     res.case(case)
     for c in REQUIRED_COUNTERS:
         res.count(c)
